@@ -101,7 +101,11 @@ theorem flush_spec (data : Nat → Bytes) (S : Nat → Prop) :
         · intro i x
           simp only [lookup_remove]
           by_cases hi : i = w.current
-          · subst hi; simp
+          · subst hi
+            simp only [if_true]
+            constructor
+            · intro e; cases e
+            · rintro ⟨_, b, _⟩; omega
           · simp only [hi, if_false, h.pending]
             constructor
             · rintro ⟨a, b, c⟩; exact ⟨a, by omega, c⟩
@@ -183,6 +187,16 @@ theorem feedAll_inv (data : Nat → Bytes) :
       · exact hS i (by simp [hi]) hc)
     unfold feedAll at h2 ⊢
     simp only [List.foldl_cons]
-    exact h2.congr (fun i => by simp only [List.mem_cons]; constructor <;> (intro x; rcases x with x | x | x <;> simp [x]))
+    refine h2.congr (fun i => ?_)
+    simp only [List.mem_cons]
+    constructor
+    · rintro (x | x | x)
+      · exact Or.inl (Or.inr x)
+      · exact Or.inl (Or.inl x)
+      · exact Or.inr x
+    · rintro ((x | x) | x)
+      · exact Or.inr (Or.inl x)
+      · exact Or.inl x
+      · exact Or.inr (Or.inr x)
 
 end Cutadapt.Runner
